@@ -22,22 +22,18 @@ ASSUMPTIONS = ["64-bit int; segments < 2^32 bytes, segment count < 2^32; bytes a
                "a failed pointer-writing / allocating op ends the compared run (the model keeps no state for a failed op)",
                "fuel of write_ptr/copy_struct: theorems are about Ok results, which are never produced by fuel exhaustion"]
 TECHNIQUE = "Coq proof over an executable model + extracted-model/implementation differential run"
-LEVEL_TEXT = ('Proof for a sub-language of the builder API (exactly listed in LEVEL_NOTE) + differential run for everything. C05_heap_inv_sublang (HeapOps.v, HeapValid.v): every reachable state of every program of the sub-language in every arena configuration with a root word satisfies valid_message = VOk (ghost object table; every pool handle is a view of it; hinv preserved by every op; hinv implies valid_message). hinv (HeapInv.v): every pointer slot and the root resolve under the strict rules into exactly one table object (structs, lists of every kind incl. composite lists with their tag word), regions inside their segments and pairwise disjoint. Also proved for all arenas/capacities and ALL ops: allocated regions are zeroed, aligned, inside len<=cap and pairwise disjoint; segments stay word aligned and only grow under SetPtr/Set/SetRoot/SetStruct/CopyFrom with all copy branches; every placed pointer resolves with well-formed landing pads; placed_struct_is_spec_valid; heap_inv_partial: an invariant over all op lists of the interpreter (well-formed segments + sound handle pool). The full heap_inv (all ops) is checked by executing the extracted valid_message + spec tree on the real Marshal bytes of every program.')
+LEVEL_TEXT = ('Proof for the builder inside one message + differential run for everything. C05_heap_inv_sublang (HeapOps.v, HeapCopy.v, HeapSteps.v, HeapValid.v): every reachable state of every program in every arena configuration with a root word satisfies valid_message = VOk (ghost object table; every pool handle is a view of it; hinv preserved by every op incl. all copy paths of writePtr/copyStruct, C05_copy_all; hinv implies valid_message). hinv (HeapInv.v): every pointer slot and the root hold the null word, the inline empty struct, a capability pointer or exactly the words the placement switch stores for one table object (structs, lists of every kind incl. composite lists with their tag word), regions inside their segments and pairwise disjoint. Also proved for all arenas/capacities and ALL ops incl. cross-message: allocated regions are zeroed, aligned, inside len<=cap and pairwise disjoint; segments stay word aligned and only grow; every placed pointer resolves with well-formed landing pads; placed_struct_is_spec_valid; heap_inv_partial. Cross-message copies are checked by executing the extracted valid_message + spec tree on the real Marshal bytes of every program.')
 LEVEL_NOTE = ("Theorem C05_heap_inv_sublang (valid_message = VOk in every reachable state, all arena configurations with a "
-              "root word, while the message has < 2^32 segments) covers: ALL constructors incl. NewCompositeList (tag word), "
-              "NewStruct, NewUInt8..64List, NewBitList, NewPointerList, NewVoidList, NewData/NewText; ALL data setters "
-              "(SetUint8..64, SetBit on structs and on List.Struct members; UInt8..64List.Set on primitive and composite lists; "
-              "BitList.Set); the within-message pointer ops Struct.SetPtr (on structs and on list members), PointerList.Set "
-              "(pointer and composite lists), Message.SetRoot with a whole object as source (null, empty-struct, capability, "
-              "near, far+pad, double-far+pad, overwrites; composite targets point at the tag word); capabilities (NewInterface, "
-              "AddCap, capability pointers); the handle-creating read ops Message.Root, Struct.Ptr, PointerList.At, List.Struct "
-              "(read_slot: readPtr at a table slot returns a view of the table, any read/depth limit); reopen; the read-only "
-              "accessors; list members WITHOUT pointer section as sources of the pointer setters (List.Struct of a UInt8..64List "
-              "or of a pointer-free composite list: copied into a fresh padded struct, write_ptr_member_data). Run-time premise "
-              "plain_run: the SOURCE handle of a pointer setter is never a list member with a pointer section (a deep copy). "
-              "NOT covered by the theorem, only by the runs (extracted valid_message + spec decoder on the real bytes of every "
-              "generated program): the deep-copy paths of writePtr (SetStruct, CopyFrom, list members with pointers as "
-              "sources, cross-message), arenas without a root word. marshal_header_ok is C14's.")
+              "root word, while the message has < 2^32 segments; no other premise) covers EVERY op of the builder inside one "
+              "message: all constructors incl. NewCompositeList; all data setters (structs, list members, primitive / "
+              "composite / bit lists); all pointer setters with any handle as source - Struct.SetPtr, PointerList.Set, "
+              "Message.SetRoot, List.SetStruct, Struct.CopyFrom - incl. every copy path of writePtr/copyStruct (list members, "
+              "forceCopy deep copies of structs and of lists of every kind, overlapping source and destination; C05_copy_all); "
+              "capabilities; the handle-creating read ops Root, Struct.Ptr, PointerList.At, List.Struct; reopen; the read-only "
+              "accessors. The executable predicate sub_prog rejects only arguments outside the Go types' ranges and Root of the "
+              "SOURCE message. NOT covered by the theorem, only by the runs (extracted valid_message + spec decoder on the real "
+              "bytes of every generated program): cross-message copies (handles of another, possibly hostile, message as "
+              "sources), arenas without a root word. marshal_header_ok is C14's.")
 DESIGN_REF = "DESIGN.md section 6, C05"
 
 classify = bc.classify
